@@ -710,6 +710,9 @@ class SymExec:
                 not any(isinstance(x, tuple) and x and x[0] == 'star' for x in it[1:]):
             it = ListVal(list(it[1:]), self.fresh())
         fit = freeze(it)
+        if isinstance(fit, tuple) and fit[:2] == ('ref', 'cls') and self._enum_members(fit[2]) is not None:
+            it = ListVal([('ref', 'enum', fit[2] + '.' + n_) for n_, _ in self._enum_members(fit[2])], self.fresh())
+            fit = freeze(it)
         if isinstance(fit, tuple) and fit[:1] == ('call',) and fit[2] == ('ref', 'builtin', 'iter') and len(fit[3]) == 2 and not fit[4]:
             # for x in iter(f, sentinel):   ==   while True: x = f(); if x == sentinel: break; ...
             callee, sentinel = fit[3]
@@ -1264,6 +1267,89 @@ class SymExec:
                 return t
         return ('ref', k, q)
 
+    def _class_attr(self, cq: str, name: str, exact: bool):
+        """Value of a class-level assignment `NAME = <constant / tuple of constants / dict display>` found along the MRO of cq.
+        Instance fields (dataclass fields, attributes stored on self) win over it; for a receiver whose exact class is not
+        known the attribute must not be re-defined by a subclass."""
+        if any(n == name for n, _, _, _ in self.facts.all_fields(cq)):
+            return None
+        owner = None
+        node = None
+        for q in self.facts.mro(cq):
+            ci = self.facts.classes.get(q)
+            if ci is None:
+                continue
+            if name in ci.methods:
+                return None
+            for st in ci.node.body:
+                tg = st.targets if isinstance(st, ast.Assign) else ([st.target] if isinstance(st, ast.AnnAssign) and st.value is not None else [])
+                if any(isinstance(t, ast.Name) and t.id == name for t in tg):
+                    owner, node = q, st.value
+                    break
+            if owner:
+                break
+        if owner is None:
+            return None
+        if not exact:
+            for sub in self.facts.subclasses(cq):
+                if sub != cq and any(isinstance(st, (ast.Assign, ast.AnnAssign)) and any(
+                        isinstance(t, ast.Name) and t.id == name for t in (st.targets if isinstance(st, ast.Assign) else [st.target]))
+                        for st in self.facts.cls(sub).node.body):
+                    return None
+        # written anywhere?  (ClassName.NAME[...] = / self.NAME = ...)  then it is not a constant
+        for fi in self.facts.functions.values():
+            if '.ply' in fi.module.name:
+                continue
+            for n in ast.walk(fi.node):
+                if isinstance(n, ast.Attribute) and n.attr == name and isinstance(n.ctx, (ast.Store, ast.Del)):
+                    return None
+                if isinstance(n, ast.Subscript) and isinstance(n.ctx, (ast.Store, ast.Del)) and isinstance(n.value, ast.Attribute) and n.value.attr == name:
+                    return None
+        m = self.facts.cls(owner).module
+        if isinstance(node, ast.Constant):
+            return ('const', node.value)
+        if isinstance(node, ast.Tuple):
+            def conv(n):
+                if isinstance(n, ast.Constant):
+                    return ('const', n.value)
+                if isinstance(n, ast.Tuple) and n.elts:
+                    xs = [conv(x) for x in n.elts]
+                    return None if any(x is None for x in xs) else ('tuple',) + tuple(xs)
+                if isinstance(n, (ast.Name, ast.Attribute)):
+                    r = self.facts.resolve_expr(m, n)
+                    if r[0] in ('fn', 'cls', 'ext', 'builtin'):
+                        return ('ref', r[0], r[1])
+                    if r[0] == 'const':
+                        return ('const', r[1])
+                return None
+            return conv(node)
+        if isinstance(node, ast.Dict) and node.keys and all(isinstance(k, ast.Constant) for k in node.keys):
+            return ('ref', 'modvar', owner + '.' + name)         # a dispatch table: looked up like a module-level one
+        return None
+
+    def _enum_members(self, cq: str):
+        """[(NAME, constant value)] of a package Enum class in definition order, else None."""
+        ci = self.facts.classes.get(cq)
+        if ci is None or not any(b.split('.')[-1] in ('Enum', 'IntEnum', 'StrEnum', 'Flag', 'IntFlag') for b in self.facts.ext_bases(cq)):
+            return None
+        out = []
+        for st in ci.node.body:
+            if isinstance(st, ast.Assign) and len(st.targets) == 1 and isinstance(st.targets[0], ast.Name) and isinstance(st.value, ast.Constant) \
+                    and not st.targets[0].id.startswith('_'):
+                out.append((st.targets[0].id, st.value.value))
+        return out
+
+    def _namedtuple_fields(self, cq: str):
+        """[(field, default node or None)] of a typing.NamedTuple class of the package, else None."""
+        ci = self.facts.classes.get(cq)
+        if ci is None or not any(b.endswith('NamedTuple') for b in self.facts.ext_bases(cq)):
+            return None
+        out = []
+        for st in ci.node.body:
+            if isinstance(st, ast.AnnAssign) and isinstance(st.target, ast.Name):
+                out.append((st.target.id, st.value))
+        return out
+
     def _const_tuple(self, q: str):
         """A module-level name bound once to a tuple display of constants (nested tuples allowed): the tuple itself.
         Tuples cannot be modified, so the value read at any time is the value written by the assignment."""
@@ -1275,6 +1361,11 @@ class SymExec:
         res = None
         node0 = m.assigns[var][0] if m is not None and var in m.assigns and len(m.assigns[var]) == 1 else None
         as_set = False
+        if isinstance(node0, ast.Call) and not node0.args and not node0.keywords:
+            r0 = self.facts.resolve_expr(m, node0.func)
+            nt = self._namedtuple_fields(r0[1]) if r0[0] == 'cls' else None
+            if nt is not None and all(isinstance(d, ast.Constant) for _, d in nt):
+                node0 = ast.Tuple(elts=[d for _, d in nt], ctx=ast.Load())      # NT(): the tuple of the declared defaults
         if isinstance(node0, ast.Call) and isinstance(node0.func, ast.Name) and node0.func.id == 'frozenset' and len(node0.args) == 1 \
                 and not node0.keywords and isinstance(node0.args[0], (ast.Tuple, ast.List, ast.Set)) \
                 and self.facts.resolve_name(m, 'frozenset')[0] == 'builtin':
@@ -1288,6 +1379,10 @@ class SymExec:
                 if isinstance(n, ast.Tuple) and n.elts:
                     xs = [conv(x) for x in n.elts]
                     return None if any(x is None for x in xs) else ('tuple',) + tuple(xs)
+                if isinstance(n, ast.Attribute):
+                    rb = self.facts.resolve_expr(m, n.value)
+                    if rb[0] == 'cls' and n.attr in dict(self._enum_members(rb[1]) or []):
+                        return ('ref', 'enum', rb[1] + '.' + n.attr)
                 if isinstance(n, (ast.Name, ast.Attribute)):
                     # a reference to a function / class / library callable: as immutable as a constant
                     r = self.facts.resolve_expr(m, n)
@@ -1349,6 +1444,19 @@ class SymExec:
             self.emit('raise', node, exc=exc, implicit=True)
             raise _Raise(exc, node)
         if isinstance(b, tuple) and b and b[0] == 'ref':
+            if b[1] == 'cls':
+                mem = self._enum_members(b[2])
+                if mem is not None and name in dict(mem):
+                    return ('ref', 'enum', b[2] + '.' + name)
+            if b[1] == 'enum' and name in ('value', 'name', '_value_', '_name_'):
+                cq_, _, mn_ = b[2].rpartition('.')
+                mem = dict(self._enum_members(cq_) or [])
+                if mn_ in mem:
+                    return ('const', mem[mn_] if name in ('value', '_value_') else mn_)
+            if b[1] == 'cls' and name == '_fields':
+                nt = self._namedtuple_fields(b[2])
+                if nt is not None:
+                    return ('tuple',) + tuple(('const', n_) for n_, _ in nt)
             r = self.facts.attr_of((b[1], b[2]), name)
             if r[0] != 'unbound':
                 return self.ref(r)
@@ -1357,6 +1465,14 @@ class SymExec:
             for fn_, fv in b[2]:
                 if fn_ == name:
                     return fv
+        # class-level constant / table reached through an instance or through the class object
+        if fr is not None and fb is not None:
+            qc = fb[2] if (isinstance(fb, tuple) and fb[:2] == ('ref', 'cls')) else self.type_of(fb, fr)
+            if qc and qc in self.facts.classes:
+                cv = self._class_attr(qc, name, exact=(isinstance(fb, tuple) and fb[:1] in (('new',), ('obj',), ('ref',))) or (
+                    isinstance(fb, tuple) and fb[:1] == ('param',) and self._is_self(fb[1], fr)))
+                if cv is not None:
+                    return cv
         # @property of a package class
         if fr is not None and fb is not None:
             q = self.type_of(fb, fr)
@@ -1459,6 +1575,11 @@ class SymExec:
         mod, _, var = dotted.rpartition('.')
         m = self.facts.modules.get(mod)
         vals = m.assigns.get(var) if m else None
+        if m is None and mod in self.facts.classes:
+            ci = self.facts.cls(mod)
+            m = ci.module
+            vals = [st.value for st in ci.node.body if isinstance(st, (ast.Assign, ast.AnnAssign)) and getattr(st, 'value', None) is not None and any(
+                isinstance(t, ast.Name) and t.id == var for t in (st.targets if isinstance(st, ast.Assign) else [st.target]))]
         if not (vals and len(vals) == 1 and isinstance(vals[0], ast.Dict)):
             return None
         out = []
@@ -1708,6 +1829,17 @@ class SymExec:
                 return ('const', bool(res))
             except Exception:
                 pass
+        # bool(x) is True / bool(x) == False ...: the truth value of x (negated for False)
+        if op in ('is', 'is not', '==', '!='):
+            for a_, b_ in ((fl, fr_), (fr_, fl)):
+                arg_ = None
+                if isinstance(a_, tuple) and a_[:2] == ('pcall', 'bool') and len(a_[2]) == 1:
+                    arg_ = a_[2][0]
+                elif isinstance(a_, tuple) and a_[:1] == ('call',) and a_[2] == ('ref', 'builtin', 'bool') and len(a_[3]) == 1 and not a_[4]:
+                    arg_ = a_[3][0]
+                if arg_ is not None and is_const(b_) and isinstance(b_[1], bool):
+                    positive = (b_[1] is True) == (op in ('is', '=='))
+                    return arg_ if positive else ('not', arg_)      # as a condition: the truth value of the argument
         # two displays of constants
         if op in ('==', '!=') and isinstance(fl, tuple) and isinstance(fr_, tuple) and fl[:1] == fr_[:1] and fl[:1] in (('list',), ('tuple',)) \
                 and all(is_const(x) for x in fl[1:]) and all(is_const(x) for x in fr_[1:]):
@@ -1721,14 +1853,19 @@ class SymExec:
             if hit is not None:
                 return ('const', bool(hit[0]) == (op == 'in'))
         # membership of a constant in a display of constants
-        if op in ('in', 'not in') and is_const(fl) and isinstance(fr_, tuple) and fr_ and fr_[0] in ('tuple', 'set', 'list') \
-                and all(is_const(x) for x in fr_[1:]):
+        def atom(x):
+            return is_const(x) or (isinstance(x, tuple) and x[:1] == ('ref',) and x[1] in ('enum', 'fn', 'cls', 'ext', 'builtin'))
+        if op in ('in', 'not in') and atom(fl) and isinstance(fr_, tuple) and fr_ and fr_[0] in ('tuple', 'set', 'list') \
+                and all(atom(x) for x in fr_[1:]):
             try:
-                return ('const', (fl[1] in [x[1] for x in fr_[1:]]) == (op == 'in'))
+                hit = any((x == fl) if not (is_const(x) and is_const(fl)) else (x[1] == fl[1]) for x in fr_[1:])
+                return ('const', hit == (op == 'in'))
             except Exception:
                 pass
         if op in ('is', 'is not') and fl == fr_ and isinstance(fl, tuple) and fl and fl[0] in ('ref', 'new', 'obj', 'sym'):
             return ('const', op == 'is')
+        if op in ('is', 'is not', '==', '!=') and isinstance(fl, tuple) and isinstance(fr_, tuple) and fl[:2] == ('ref', 'enum') and fr_[:2] == ('ref', 'enum'):
+            return ('const', (fl == fr_) == (op in ('is', '==')))
         # identity of an object created on this path with something that existed before (a module-level object, a class,
         # a function) or with another object created on this path
         if op in ('is', 'is not'):
@@ -1752,7 +1889,7 @@ class SymExec:
                 if isinstance(c[1], (str, bool, int)) and c[1] is not None and set(kinds_) <= {'op', 'none', 'list'}:
                     return ('const', op in ('is not', '!='))
             elif isinstance(other, tuple) and other and (other[0] in ('list', 'dict', 'new', 'closure', 'symlist', 'tuple', 'fstr') or (
-                    other[0] == 'ref' and other[1] in ('fn', 'fnraw', 'cls', 'ext', 'builtin', 'extmod', 'pkgmod'))):
+                    other[0] == 'ref' and other[1] in ('fn', 'fnraw', 'cls', 'ext', 'builtin', 'extmod', 'pkgmod', 'enum'))):
                 if c[1] is None or c[1] is Ellipsis or isinstance(c[1], (str, bool, int)):
                     if other[0] == 'tuple' and isinstance(c[1], tuple):
                         pass
@@ -1819,6 +1956,10 @@ class SymExec:
         if k is not None:
             return k
         ft = freeze(t)
+        if isinstance(ft, tuple) and ft[:2] == ('pcall', 'bool') and len(ft[2]) == 1:
+            return self.truth(ft[2][0], node)          # bool(x) is true exactly when x is
+        if isinstance(ft, tuple) and ft[:1] == ('call',) and ft[2] == ('ref', 'builtin', 'bool') and len(ft[3]) == 1 and not ft[4]:
+            return self.truth(ft[3][0], node)
         if isinstance(ft, tuple) and ft and ft[0] == 'not':
             return not self.truth(ft[1], node)
         # choice 0 = True branch first (source order of if/else)
@@ -1847,6 +1988,8 @@ class SymExec:
         try:
             for gi, g in enumerate(e.generators):
                 it = self.ev(g.iter, inner if gi else fr)
+                if isinstance(it, tuple) and it[:2] == ('ref', 'cls') and self._enum_members(it[2]) is not None:
+                    it = ListVal([('ref', 'enum', it[2] + '.' + n_) for n_, _ in self._enum_members(it[2])], self.fresh())
                 if isinstance(it, tuple) and it and it[0] == 'tuple' and len(it) > 1 and \
                         not any(isinstance(x, tuple) and x and x[0] == 'star' for x in it[1:]):
                     it = ListVal(list(it[1:]), self.fresh())
@@ -2075,6 +2218,8 @@ class SymExec:
                     b[0] == 'param' and self._is_self(b[1], fr))))
                 if m and not exact:
                     # receiver typed by annotation only: dynamic dispatch unless nobody overrides
+                    if (m.rsplit('.', 1)[0], f[2]) in self.facts.__dict__.get('dynamic_methods', ()):
+                        return None         # the inherited body behaves differently per concrete class (hooks / visitor)
                     for sub in self.facts.subclasses(q):
                         if sub != q and self.facts.find_method(sub, f[2]) != m:
                             return None
@@ -2093,6 +2238,15 @@ class SymExec:
                 raise Unrecognised('super() outside a method in %s' % fr.qual)
             # the class whose method body we are in: derive from the qualified name of the frame
             here = f.cls
+            if f is getattr(self, 'top_frame', None) and self.closure is None and f.cls in self.facts.classes:
+                # an inherited method analysed as a method of a subclass: super() is relative to the class that defines it
+                for cq in self.facts.mro(f.cls):
+                    ci_ = self.facts.classes.get(cq)
+                    if ci_ is not None and any(v is self.fi.node for v in ci_.methods.values()):
+                        here = cq
+                        break
+            elif f.qual.rsplit('.', 1)[0] in self.facts.classes:
+                here = f.qual.rsplit('.', 1)[0]
             return ('super', self._dynamic_cls(f), here, freeze(f.env.get(f.self_name)))
         func = self.ev(e.func, fr)
         if freeze(func) in (('ref', 'builtin', 'list'), ('ref', 'builtin', 'tuple')) and len(e.args) == 1 and not e.keywords \
@@ -2121,6 +2275,15 @@ class SymExec:
             return PartialVal(args[0], args[1:], kwargs)
         fargs = tuple(freeze(a) for a in args)
         fkw = tuple((k, freeze(v)) for k, v in kwargs)
+        if isinstance(ff, tuple) and ff[:2] == ('ref', 'cls') and len(args) == 1 and not kwargs and is_const(fargs[0]):
+            mem = self._enum_members(ff[2])
+            if mem is not None:
+                for n_, v_ in mem:
+                    if v_ == fargs[0][1] and type(v_) == type(fargs[0][1]):
+                        return ('ref', 'enum', ff[2] + '.' + n_)        # EnumClass(value): the member with that value
+                exc = ('call', self.fresh(), ('ref', 'builtin', 'ValueError'), (), ())
+                self.emit('raise', node, exc=exc, implicit=True)
+                raise _Raise(exc, node)
         # ---- folding of a few pure builtins on known values
         if isinstance(ff, tuple) and ff[:2] == ('ref', 'builtin'):
             name = ff[2]
@@ -2413,6 +2576,17 @@ class SymExec:
         elif is_const(fv):
             tn = type(fv[1]).__name__
             kind = ('builtin', tn)
+        elif isinstance(fv, tuple) and fv and fv[0] == 'param' and getattr(self, 'top_frame', None) is not None \
+                and self.top_frame.self_name == fv[1] and self.top_frame.cls and self.closure is None \
+                and self.top_frame.cls in self.facts.classes:
+            # the method is analysed as a method of exactly this class
+            mine = self.top_frame.cls
+            for c in cs:
+                if c[0] == 'cls' and self.facts.is_subclass(mine, c[1]):
+                    return True
+                if c == ('builtin', 'object'):
+                    return True
+            return False
         elif isinstance(fv, tuple) and fv and fv[0] == 'exc' and fv[1]:
             # an exception known to be an instance of (one of) the listed classes
             verdicts = []
@@ -2444,7 +2618,7 @@ class SymExec:
     def _construct(self, qual, args, kwargs, node, fr, eid):
         """Constructor call of a package class: bind dataclass fields."""
         ci = self.facts.cls(qual)
-        fields = self.facts.all_fields(qual)
+        fields = self.facts.all_fields(qual, ctor=True)
         is_dc = any(self.facts.cls(q).is_dataclass for q in self.facts.mro(qual) if q in self.facts.classes)
         init = self.facts.find_method(qual, '__init__')
         # exception objects are opaque: what their constructors do with the message is a matter of its own (C16.R8), and a
@@ -2523,6 +2697,39 @@ _orig_ex_Call = SymExec.ex_Call
 
 
 def _ex_Call(self: SymExec, e, fr):
+    if isinstance(e.func, ast.Name) and e.func.id == 'next' and 1 <= len(e.args) <= 2 and not e.keywords \
+            and isinstance(e.args[0], ast.GeneratorExp) and len(e.args[0].generators) == 1 and not e.args[0].generators[0].is_async \
+            and self.facts.resolve_name(fr.module, 'next')[0] == 'builtin' and 'next' not in fr.env:
+        # next((E for x in xs if C), default): the first element that passes, found by going through xs in order
+        ge = e.args[0]
+        g = ge.generators[0]
+        it = self.ev(g.iter, fr)
+        spine = it.elts if isinstance(it, ListVal) and it.concrete() else (
+            list(it[1:]) if isinstance(it, tuple) and it[:1] == ('tuple',) and not any(isinstance(x, tuple) and x[:1] == ('star',) for x in it[1:]) else None)
+        if spine is not None and len(spine) <= 32:
+            inner = Frame(fr.module, fr.qual, fr.cls, env={}, outer=fr, self_name=fr.self_name)
+            for el in spine:
+                self.assign(g.target, el, inner, e)
+                if all(self.truth(self.ev(c, inner), c) for c in g.ifs):
+                    return self.ev(ge.elt, inner)
+            if len(e.args) == 2:
+                return self.ev(e.args[1], fr)
+            exc = ('call', self.fresh(), ('ref', 'builtin', 'StopIteration'), (), ())
+            self.emit('raise', e, exc=exc, implicit=True)
+            raise _Raise(exc, e)
+    if isinstance(e.func, ast.Name) and e.func.id == 'setattr' and len(e.args) == 3 and not e.keywords \
+            and self.facts.resolve_name(fr.module, 'setattr')[0] == 'builtin' and 'setattr' not in fr.env:
+        # setattr(obj, '<constant>', v) is the attribute store obj.<constant> = v
+        obj = self.ev(e.args[0], fr)
+        nm = self.ev(e.args[1], fr)
+        seen = self.facts.__dict__.setdefault('_setattr_nodes', {})
+        if is_const(freeze(nm)) and isinstance(freeze(nm)[1], str):
+            val = self.ev(e.args[2], fr)
+            seen.setdefault(id(e), [e, True])
+            self.emit('store_attr', e, obj=obj, attr=freeze(nm)[1], value=val)
+            return ('const', None)
+        seen[id(e)] = [e, False]
+        return self.call(('ref', 'builtin', 'setattr'), [obj, nm, self.ev(e.args[2], fr)], [], e, fr)
     if isinstance(e.func, ast.Attribute) and e.func.attr in ('callback', 'push', 'enter_context', 'close', 'pop_all'):
         recv0 = self.ev(e.func.value, fr)
         if isinstance(recv0, ExitStackVal):
